@@ -60,10 +60,17 @@ func newRedirectErrorHandler(id string, rawConfig map[string]any) (*redirectErro
 		return nil, err
 	}
 
+	code := x.IfThenElse(conf.Code != 0, conf.Code, http.StatusFound)
+	if code < http.StatusMultipleChoices || code >= http.StatusBadRequest {
+		// any other status would turn the error into something else, e.g. into a success response
+		return nil, errorchain.NewWithMessagef(heimdall.ErrConfiguration,
+			"%d is not a redirection status code", code)
+	}
+
 	return &redirectErrorHandler{
 		id:   id,
 		to:   conf.To,
-		code: x.IfThenElse(conf.Code != 0, conf.Code, http.StatusFound),
+		code: code,
 	}, nil
 }
 
